@@ -2,9 +2,9 @@
 
 N(tree): nested-tuple canonical form implementing "equivalent up to whitespace at
 block boundaries" (DESIGN C19): a string child that touches a block node
-(section, list, list item, table part, rule) or the boundary of a block
-container (those kinds and ROOT) is stripped on that side and dropped when
-empty.  Nothing else is normalised.
+(section, list, list item, table part, rule, preformatted block) or the boundary
+of a block container (those kinds and ROOT) is stripped on that side and dropped
+when empty.  Nothing else is normalised.
 
 first_diff(a, b): first structural difference between two canonical forms,
 as a *mechanism class* (what kind of thing changed, in/next to which node
@@ -13,7 +13,7 @@ kind) -- never a value from the input.
 from __future__ import annotations
 
 BLOCK = {"ROOT", "LEVEL1", "LEVEL2", "LEVEL3", "LEVEL4", "LEVEL5", "LEVEL6", "LIST", "LIST_ITEM", "TABLE",
-         "TABLE_CAPTION", "TABLE_ROW", "TABLE_CELL", "TABLE_HEADER_CELL", "HLINE"}
+         "TABLE_CAPTION", "TABLE_ROW", "TABLE_CELL", "TABLE_HEADER_CELL", "HLINE", "PRE", "PREFORMATTED"}
 
 
 class Nd(tuple):
